@@ -73,6 +73,8 @@ def _label_key(labels, kind, rng):
             continue
         if d[0] in ('dtstr', 'dt64', 'dateobj', 'dtslice', 'dtlabels', 'serieskey', 'indexkey'):
             continue
+        if d[0] == 'lslice' and d[3] is not None and d[3] < 0:
+            continue  # descending label slices: known finding owned by C04
         if d[0] == 'iloc' and d[1][0] in ('list', 'array') and len(set(x % max(1, len(labels)) for x in d[1][1])) != len(d[1][1]):
             continue
         return d
